@@ -8,27 +8,47 @@ bodies -- zero net power with the markers moving at ``velocity_field``.  Nodal r
 as the property says.  Full interaction (``__call__`` + ``compute_flow_forces_and_torques``): grid integral of
 the Eulerian forcing equals the marker total and cancels the body force; ``FlowForces.apply_forces`` adds.
 
-Tolerance: 64 * eps64 * (sum of |terms|); measured max err/tol on the unchanged tree, seeds 0..5 quick and
-0,1 thorough: see the final report of the run (``max err/tol`` line) -- all <= 0.05.
+Tolerance: 64 * eps64 * (sum of |terms|); positions carry their own rounding (x_m = fl(X + r_m)), so moment arms
+are bounded by |x| + |P|.  Measured max err/tol on the unchanged tree (quick seeds 0..5, thorough seeds 0,1):
+force 0.033, moment 0.071, power 0.031, grid integral vs marker total 0.029, grid integral + body force 0.029,
+apply_forces 0 (exact).
 
-Self-test (tools/mut.sh --sed ... C08, quick tier): every row gave VIOLATION
-  file (under sopht/simulator/immersed_body)   mutation                                                     mechanism that fired
-  cosserat_rod_forcing_grids.py  nodal:  `= -lag_grid_forcing_field` -> `= lag_grid_forcing_field`          force-balance|nodal2d, nodal3d
-  cosserat_rod_forcing_grids.py  elem:   `1:] -= 0.5 * lag_grid_forcing_field` -> 0.6 (and :-1 -> 0.4)      moment-balance|elem2d, elem3d
-  cosserat_rod_forcing_grids.py  elem:   one `-= 0.5 *` -> `-= 0.6 *`                                       force-balance|elem*
-  cosserat_rod_forcing_grids.py  edge:   `-self.moment_arm, self.element_forces_right` -> `self.moment_arm` moment-balance|edge2d
-  cosserat_rod_forcing_grids.py  edge:   final `_batch_matvec(director, torques)` with transposed director  moment-balance|edge2d
-  cosserat_rod_forcing_grids.py  surface: `_batch_cross(self.moment_arm, -lag...)` -> `+lag...`             moment-balance|surface3d, surfacecap3d
-  cosserat_rod_forcing_grids.py  surface: `director_collection[:, :, i] @` -> `[:, :, i].T @`               moment-balance|surface*
-  cosserat_rod_forcing_grids.py  surface: torque sum over `start_idx[i] : end_idx[i] - 1` (cap marker lost) moment-balance|surface*, one-hot
-  cosserat_rod_forcing_grids.py  surface: `body_flow_forces[:, i + 1] -= 0.5` -> `0.4`                      force-balance|surface*
-  cosserat_rod_forcing_grids.py  surface: moment arm from node i instead of the element centre             moment-balance|surface*
-  rigid_body_forcing_grids.py    3-D: `body_flow_torques[...] = -np.dot(` -> `= np.dot(`                    moment-balance|cyl3d..., power-balance
-  rigid_body_forcing_grids.py    3-D: `director_collection[:, :, 0],\n np.sum(` -> `[:, :, 0].T`            moment-balance|cyl3d, plane3d, generic3d
-  rigid_body_forcing_grids.py    2-D: drop the `director_collection[2, 2, 0] *` factor of the torque        moment-balance|cyl2d (d3 = -z poses)
-  rigid_body_forcing_grids.py    2-D: `body_flow_forces[: self.grid_dim] = -np.sum` -> `= np.sum`           force-balance|cyl2d, generic2d
-  flow_forces.py                 `external_forces +=` -> `=`                                                apply-forces-not-additive
-  VirtualBoundaryForcing.py      spread a different field than the one transferred (0.5 * forcing)          grid-integral!=sum(F)  [C07 overlap]
+Observed sign convention (matches the property text): ``lag_grid_forcing_field`` F_m is the force ON THE FLUID; it is
+spread to the Eulerian forcing field (sum_c f_c dx^d = sum_m F_m) and the body receives -F_m.
+
+Not demanded (and known not to hold): moment balance of the NODAL rod grid.  Its nodal forces -F_k already carry the
+whole moment; the additional element couples it returns make the total moment residual equal to the sum of those
+couples (generally non-zero).  Mutating those couples (sign flip of the end correction, l.55) leaves this check HELD.
+
+Self-test: ``tools/mut.sh --sed <expr> <file> C08`` (quick tier, seed 0).  23 mutations -> VIOLATION, 1 (outside the
+property, see above) -> HELD as intended.
+  cosserat_rod_forcing_grids.py
+    nodal: missing minus sign (l.43 `= -lag` -> `= lag`)                        force-balance|nodal3d, nodal2d
+    elem: 0.5/0.5 split -> 0.6/0.4 (l.120-121)                                  moment-balance|elem3d, elem2d (net force still balances)
+    elem: one half -> 0.6 (l.120)                                               force-balance|elem3d
+    edge: right-edge arm sign (l.270 `-self.moment_arm` -> `self.moment_arm`)   moment-balance|edge2d
+    edge: couples rotated with Q^T instead of Q (l.281)                         moment-balance|edge2d (rolled directors)
+    edge: minus dropped for centre-marker force on one node (l.253)             force-balance|edge2d
+    surface: couple sign (l.489 `-lag` -> `lag`)                                moment-balance|surface3d, surfacecap3d
+    surface: Q -> Q^T (l.494)                                                   moment-balance|surface3d
+    surface: last (cap) marker of each element left out of the couple (l.495)   moment-balance|surface3d, one-hot
+    surface: last (cap) marker of each element left out of the force (l.482)    force-balance|surface3d, one-hot
+    surface: split 0.5/0.4 (l.485)                                              force-balance|surface3d
+    surface: element centre taken at node i (l.412, arm from the wrong centre)  moment-balance|surface3d
+    surface: arm scaled by 0.9 in the couple (l.489)                            moment-balance|surface3d
+    nodal: sign of the end-element couple correction (l.55)                     HELD (nodal couples are outside the property)
+  rigid_body_forcing_grids.py
+    3-D: torque sign (l.163)                                                    moment-balance|plane3d..., power-balance
+    3-D: Q -> Q^T (l.164)                                                       moment-balance|plane3d, cyl3d, generic3d
+    3-D: force sign (l.160)                                                     force-balance|plane3d...
+    2-D: Q[2,2] factor of the torque dropped (l.72, z handling)                 moment-balance|generic2d, cyl2d (d3 = -z poses only)
+    2-D: force sign (l.66)                                                      force-balance|cyl2d
+    2-D: sign of the r_x F_y term (l.73)                                        moment-balance|cyl2d
+  flow_forces.py
+    `external_forces +=` -> `[...] =`                                           apply-forces-not-additive
+    `external_torques +=` -> `[...] =`                                          apply-forces-not-additive
+  numeric/immersed_boundary_ops/VirtualBoundaryForcing.py
+    spread 0.5 * F to the grid but transfer F to the body                       grid-integral!=sum(F), fluid+body-force!=0
 """
 import numpy as np
 
@@ -116,7 +136,7 @@ def _check_wrench(rec, case, bf, bt, F, P, fkind, cls_extra, witness_extra=None)
         rec.count("power_checks")
         if not ep <= 1:
             rec.violation(f"power-balance|{kind}", f"F_body.V + T.Omega + sum F_m.v_m = {r['power']} (err/tol={ep:.3g}) F={fkind} {case.meta}", wit)
-    rec.case((kind, *cls_extra, fkind), sample=None)
+    rec.case((kind, *cls_extra, fkind), sample={**{k: v for k, v in case.meta.items() if k != "shape"}, "force_field": fkind, "force_err_over_tol": ef})
 
 
 def _zeros_out(case):
